@@ -14,6 +14,7 @@
  *   R name nt ncomp xdim ydim n v..    GR image, pixel interlace, n = xdim*ydim*ncomp
  *   V name nrec nf (fname nt order)*nf n v..   Vdata, full interlace, n = nrec*sum(order)
  *   E name                             empty Vgroup
+ *   Z name nt rank d.. fill idx val    (mk only) SDS filled with one value, element idx set to val
  * Values: integers for the integer/char types; float32/float64 values are given by their IEEE bit pattern
  * (unsigned integer), so that nothing in the harness or the drivers formats or parses floating text.
  *
@@ -115,6 +116,21 @@ static int do_mk(const char *desc, const char *out)
             int32 nt = atoi(tok[2]), n = atoi(tok[3]);
             unsigned char *b = vals(nt, 4, n);
             CK(SDsetattr(sds, tok[1], nt, n, b));
+            free(b);
+        }
+        else if (!strcmp(tok[0], "Z")) { /* Z name nt rank d.. fill idx val : constant dataset with one element set */
+            if (sds != FAIL) { CK(SDendaccess(sds)); sds = FAIL; }
+            int32 nt = atoi(tok[2]), rank = atoi(tok[3]), dims[H4_MAX_VAR_DIMS], start[H4_MAX_VAR_DIMS];
+            long n = 1;
+            for (int i = 0; i < rank; i++) { dims[i] = atoi(tok[4 + i]); start[i] = 0; n *= dims[i]; }
+            int w = ntsize(nt);
+            unsigned char *b = (unsigned char *)calloc((size_t)n, (size_t)w);
+            for (long i = 0; i < n; i++) put_val(nt, b + (size_t)i * w, tok[4 + rank]);
+            long idx = atol(tok[5 + rank]);
+            if (idx >= 0 && idx < n) put_val(nt, b + (size_t)idx * w, tok[6 + rank]);
+            sds = SDcreate(sd, tok[1], nt, rank, dims);
+            CK(sds);
+            CK(SDwritedata(sds, start, NULL, dims, b));
             free(b);
         }
     }
